@@ -7,26 +7,26 @@ def eng(quick, thorough, **kw):
 Q = lambda shards, checks, **kw: dict(shards=shards, checks=checks, timeout=kw.pop("timeout", 900), **kw)
 
 CHECKS = {
-    "C01": eng(Q(4, 1500), Q(16, 40000, timeout=3000)),
-    "C02": eng(Q(4, 1500), Q(16, 40000, timeout=3000)),
-    "C03": eng(Q(4, 1500), Q(16, 40000, timeout=3000)),
-    "C04": eng(Q(4, 1500), Q(16, 40000, timeout=3000)),
-    "C05": eng(Q(4, 1500), Q(16, 40000, timeout=3000)),
-    "C06": eng(Q(4, 1200), Q(16, 30000, timeout=3000)),
-    "C07": eng(Q(4, 1200), Q(16, 30000, timeout=3000)),
-    "C08": eng(Q(4, 1500), Q(16, 40000, timeout=3000)),
-    "C09": eng(Q(4, 1200), Q(16, 30000, timeout=3000)),
-    "C10": eng(Q(4, 1500), Q(16, 40000, timeout=3000)),
+    "C01": eng(Q(8, 3000), Q(16, 40000, timeout=3000)),
+    "C02": eng(Q(8, 3000), Q(16, 40000, timeout=3000)),
+    "C03": eng(Q(8, 3000), Q(16, 40000, timeout=3000)),
+    "C04": eng(Q(8, 3000), Q(16, 40000, timeout=3000)),
+    "C05": eng(Q(8, 3000), Q(16, 40000, timeout=3000)),
+    "C06": eng(Q(8, 2400), Q(16, 30000, timeout=3000)),
+    "C07": eng(Q(8, 2400), Q(16, 30000, timeout=3000)),
+    "C08": eng(Q(8, 3000), Q(16, 40000, timeout=3000)),
+    "C09": eng(Q(8, 2400), Q(16, 30000, timeout=3000)),
+    "C10": eng(Q(8, 3000), Q(16, 40000, timeout=3000)),
     "C11": eng(Q(4, 500), Q(16, 8000, timeout=3000), gogc=1),
     "C12": eng(Q(4, 400), Q(16, 10000, timeout=3000), inproc=[1, 2],
                arkrun=[("proc1", ["verif"]), ("proc2", ["verif"]), ("proc3", ["verif"])]),
     "C13": eng(Q(2, 150), Q(8, 4000, timeout=3000), race=True),
-    "C14": eng(Q(4, 1200), Q(16, 25000, timeout=3000)),
-    "C15": eng(Q(4, 1500), Q(16, 40000, timeout=3000)),
-    "C16": eng(Q(4, 1200), Q(16, 30000, timeout=3000)),
-    "C17": eng(Q(4, 1500), Q(16, 30000, timeout=3000)),
+    "C14": eng(Q(8, 2400), Q(16, 25000, timeout=3000)),
+    "C15": eng(Q(8, 3000), Q(16, 40000, timeout=3000)),
+    "C16": eng(Q(8, 2400), Q(16, 30000, timeout=3000)),
+    "C17": eng(Q(8, 3000), Q(16, 30000, timeout=3000)),
     "C18": eng(Q(4, 600), Q(16, 8000, timeout=3000), variants=[{"tags": ["verif"]}, {"tags": ["verif", "ark_tiny"]}]),
-    "C19": eng(Q(4, 1500), Q(16, 30000, timeout=3000)),
+    "C19": eng(Q(8, 3000), Q(16, 30000, timeout=3000)),
     "C20": eng(Q(4, 300), Q(16, 8000, timeout=3000),
                arkrun=[("default", ["verif"]), ("tiny", ["verif", "ark_tiny"]), ("debug", ["verif", "ark_debug"]), ("tiny_debug", ["verif", "ark_tiny", "ark_debug"])]),
 }
